@@ -1,7 +1,8 @@
 ------------------------------- MODULE MC_C17c -------------------------------
 (* Program space for the CLIENT side of C17 (handshake boundary): the      *)
 (* server glues frames to its 101 response.  Abstract programs =           *)
-(* Dialer.ReadBufferSize x frame stream (x ws / wss); the Go driver expands *)
+(* Dialer.ReadBufferSize x httptrace hooks installed or not x frame stream *)
+(* (x ws / wss); the Go driver expands                                     *)
 (* each of them to EVERY split offset of "response + frames" (two          *)
 (* segments; the thorough tier adds three-segment variants around and      *)
 (* behind the end of the header block), as it does for fault positions.    *)
@@ -24,7 +25,9 @@ MoreStreams ==
     << Fr(2, TRUE, 5000) >> }
 Streams == IF Full THEN QuickStreams \cup MoreStreams ELSE QuickStreams
 
-MCCfgs == { [BaseCfg EXCEPT !.rbuf = b] : b \in RBufs }
+(* trace: the dial context carries an httptrace.ClientTrace with every hook set (GotFirstResponseByte, GetConn,  *)
+(* GotConn, TLSHandshakeStart / Done, ...): observing the handshake must not cost a byte either.                *)
+MCCfgs == { [BaseCfg EXCEPT !.rbuf = b, !.trace = t] : b \in RBufs, t \in BOOLEAN }
 MCDials(c) ==
   { << Dial([PlainURL EXCEPT !.scheme = s], << >>, [GoodReply EXCEPT !.tail = t], OkCReply, "valid", NoFault, FALSE) >> :
       s \in Schemes17, t \in Streams }
